@@ -1164,6 +1164,7 @@ Proof.
   - now apply fire_section_inv.
   - now apply cb_return_inv.
   - destruct (Nat.eqb c 0); [exact H | now apply cancel_root_inv].
+  - destruct (watch_step_spec s c) as [->|[x [y [_ [-> _]]]]]; [exact H | now apply (Inv_ext s)].
 Qed.
 
 Lemma run_app fx s es e : run fx s (es ++ [e]) = step fx (run fx s es) e.
